@@ -189,7 +189,7 @@ def finish_simple(prop, tier, seed, jobs, viols, t0, level, extra_cov=None):
 # --------------------------------------------------------------------------- C11
 def tl_inst(size, samples, fp, keyed, keys, cells, table=None, **kw):
     t = table or ([0] * (keyed + 1) + [0, U64MAX, 1 << 32, (1 << 63) + 5, 12345678901234567, 3][:keys - keyed])
-    return dict(name='tlfu-n%d-s%d-k%d' % (size, samples, keys), mc=dict(Keys=K(keys), Samples=samples, Cells=cells),
+    return dict(name='tlfu-n%d-s%d-k%d-fp%s' % (size, samples, keys, str(fp).replace('.', 'p').replace('-', 'm')), mc=dict(Keys=K(keys), Samples=samples, Cells=cells),
                 cfg={'size': size, 'samples': samples, 'fp': fp, 'keyed': keyed}, keys=keys, table=t, **kw)
 
 
@@ -198,13 +198,17 @@ C11_INST = {
     'quick': [tl_inst(8, 4, 0.01, 2, 3, 2, random=(30, 80), extra_ops=EXTRA_TL),
               tl_inst(2, 1, 0.5, 1, 2, 1, random=(10, 30)),
               tl_inst(64, 40, 0.01, 2, 4, 1, random_only=True, random=(10, 400)),
+              tl_inst(64, 100, 0.7, 2, 4, 1, random_only=True, random=(10, 60)),      # permissive false-positive ratio
+              tl_inst(16, 12, 0.999, 1, 3, 1, random_only=True, random=(10, 60)),
               tl_inst(1, 3, 0.01, 1, 2, 1, random_only=True, random=(10, 30))],
     'thorough': [tl_inst(8, 4, 0.01, 2, 3, 2, random=(200, 200), extra_ops=EXTRA_TL),
                  tl_inst(3, 5, 0.999, 2, 4, 2, random=(200, 200)),
                  tl_inst(2, 1, 0.5, 1, 2, 1, random=(50, 50)), tl_inst(2, 2, 0.000000001, 2, 3, 2, random=(100, 100)),
                  tl_inst(1, 3, 0.01, 1, 2, 1, random=(50, 50)),
                  tl_inst(64, 40, 0.01, 2, 5, 1, random_only=True, random=(100, 1500)),
-                 tl_inst(64, 16, 0.01, 3, 6, 1, random_only=True, random=(100, 600))],
+                 tl_inst(64, 16, 0.01, 3, 6, 1, random_only=True, random=(100, 600)),
+                 tl_inst(64, 100, 0.7, 2, 4, 1, random_only=True, random=(50, 200)), tl_inst(16, 12, 0.6, 1, 3, 1, random_only=True, random=(50, 100)),
+                 tl_inst(32, 50, 0.9, 2, 4, 1, random_only=True, random=(50, 200))],
 }
 
 
